@@ -95,6 +95,7 @@ func (n *nni) Apply() (err error) {
 
 	if n1n2index, err = n.n1.NodeIndex(n.n2); err != nil {
 		err = fmt.Errorf("Cannot create NNI with unconnected nodes n1 n2")
+		return
 	}
 
 	// We first get n12 index for n1 node
@@ -170,6 +171,7 @@ func (n *nni) Undo() (err error) {
 
 	if n1n2index, err = n.n1.NodeIndex(n.n2); err != nil {
 		err = fmt.Errorf("Cannot create NNI with unconnected nodes n1 n2")
+		return
 	}
 
 	// We first get n12 index for n2 node
